@@ -64,7 +64,7 @@ theorem inv_bindNew (w : World) (hw : Inv w) (d : Nat) (c : Cls) (hd : d < w.nDs
       have hne : ¬ k = w.nObj := by omega
       exact ⟨c', by simp [hne, hc']⟩
 
-theorem inv_step (env : SynthEnv) (w : World) (hw : Inv w) (op : Op) : Inv (step env w op).1 := by
+theorem inv_step (det : Detector) (w : World) (hw : Inv w) (op : Op) : Inv (step det w op).1 := by
   cases op with
   | access d =>
     simp only [step]
@@ -76,7 +76,7 @@ theorem inv_step (env : SynthEnv) (w : World) (hw : Inv w) (op : Op) : Inv (step
       | some k => exact hw
       | none =>
         simp only
-        cases hdet : detect env w.reg f with
+        cases hdet : det w.reg f with
         | error e => exact hw
         | ok r =>
           cases r with
@@ -162,14 +162,14 @@ theorem inv_step (env : SynthEnv) (w : World) (hw : Inv w) (op : Op) : Inv (step
         simp only; omega
   | register c => exact ⟨hw.feat_lt, hw.bound_lt, hw.obj_lt, hw.obj_ds, hw.bound_obj⟩
 
-theorem inv_run (env : SynthEnv) (ops : List Op) : ∀ (w : World), Inv w → Inv (run env w ops) := by
+theorem inv_run (det : Detector) (ops : List Op) : ∀ (w : World), Inv w → Inv (run det w ops) := by
   induction ops with
   | nil => intro w hw; exact hw
-  | cons op ops ih => intro w hw; exact ih _ (inv_step env w hw op)
+  | cons op ops ih => intro w hw; exact ih _ (inv_step det w hw op)
 
 /-- one step never detaches or replaces a bound convention -/
-theorem step_keeps_bound (env : SynthEnv) (w : World) (op : Op) (d k : Nat)
-    (h : w.bound d = some k) : (step env w op).1.bound d = some k := by
+theorem step_keeps_bound (det : Detector) (w : World) (op : Op) (d k : Nat)
+    (h : w.bound d = some k) : (step det w op).1.bound d = some k := by
   cases op with
   | access d' =>
     simp only [step]
@@ -180,7 +180,7 @@ theorem step_keeps_bound (env : SynthEnv) (w : World) (op : Op) (d k : Nat)
       | some k' => exact h
       | none =>
         simp only
-        cases hdet : detect env w.reg f with
+        cases hdet : det w.reg f with
         | error e => exact h
         | ok r =>
           cases r with
@@ -227,17 +227,17 @@ theorem step_keeps_bound (env : SynthEnv) (w : World) (op : Op) (d k : Nat)
     | some f => exact h
   | register c => exact h
 
-theorem run_keeps_bound (env : SynthEnv) (ops : List Op) : ∀ (w : World) (d k : Nat),
-    w.bound d = some k → (run env w ops).bound d = some k := by
+theorem run_keeps_bound (det : Detector) (ops : List Op) : ∀ (w : World) (d k : Nat),
+    w.bound d = some k → (run det w ops).bound d = some k := by
   induction ops with
   | nil => intro w d k h; exact h
-  | cons op ops ih => intro w d k h; exact ih _ d k (step_keeps_bound env w op d k h)
+  | cons op ops ih => intro w d k h; exact ih _ d k (step_keeps_bound det w op d k h)
 
 /-- one step changes the binding and the content of no dataset but its target
 (and the dataset a copy creates) -/
-theorem step_frame (env : SynthEnv) (w : World) (op : Op) (d' : Nat)
+theorem step_frame (det : Detector) (w : World) (op : Op) (d' : Nat)
     (ht : op.target w ≠ some d') (hex : d' ≠ w.nDs) :
-    (step env w op).1.bound d' = w.bound d' ∧ (step env w op).1.feat d' = w.feat d' := by
+    (step det w op).1.bound d' = w.bound d' ∧ (step det w op).1.feat d' = w.feat d' := by
   cases op with
   | access d =>
     have hne : ¬ d' = d := by rintro rfl; exact ht rfl
@@ -249,7 +249,7 @@ theorem step_frame (env : SynthEnv) (w : World) (op : Op) (d' : Nat)
       | some k => exact ⟨rfl, rfl⟩
       | none =>
         simp only
-        cases hdet : detect env w.reg f with
+        cases hdet : det w.reg f with
         | error e => exact ⟨rfl, rfl⟩
         | ok r =>
           cases r with
